@@ -115,6 +115,11 @@ def run(ctx):
                                          "substitute"),
                   outcome_norm=_with_raise_args)
     _verdict(run, "C04.R4", fn, "assembly loop (one iteration)", r, m)
+    from rules.common import crosscheck
+    crosscheck(ctx, "C04.R4", "ZConfig.SubstitutionReplacementError.__init__",
+               "ref_misc.py", "replacementerror_init",
+               "ZConfig.SubstitutionReplacementError",
+               "the replacement error carries source and name")
     # the loop must be a while over the remaining text only
     loops = [n for n in ast.walk(fn.node) if isinstance(n, (ast.While,
                                                             ast.For))]
